@@ -639,6 +639,13 @@ class Overlay:
             src = os.path.join(specs_dir, m + ".rs")
             with open(src) as f:
                 body = f.read()
+            # every proved lemma of a spec module is an obligation of its own (axioms are listed as assumptions)
+            for mm in re.finditer(r"(?m)^\s*pub (broadcast )?proof fn (\w+)", body):
+                self.obligations.append({"id": f"lemma.{m}.{mm.group(2)}", "unit": f"lemma.{m}", "kind": "lemma",
+                                         "text": f"proof fn {mm.group(2)} in specs/verus/{m}.rs"})
+            for mm in re.finditer(r"(?m)^\s*pub (broadcast )?axiom fn (\w+)", body):
+                self.assumed.append({"unit": f"axiom.{m}.{mm.group(2)}", "fn": f"axiom fn {mm.group(2)}", "file": f"specs/verus/{m}.rs",
+                                     "requires": [], "ensures": ["(axiom)"]})
             with open(os.path.join(d, m + ".rs"), "w") as f:
                 f.write(body)
             modrs += f"pub(crate) mod {m};\n#[allow(unused_imports)] pub(crate) use {m}::*;\n"
